@@ -460,6 +460,12 @@ func structural(t *rapid.T) Case {
 	if len(c.Files) == 0 {
 		c.Files["main.thrift"] = sb.String()
 	}
+	// embed the shape into a generated program (its names never clash with the shape's)
+	if rapid.IntRange(0, 3).Draw(t, "embed") == 0 {
+		p := im.GenProgram(t, &im.GenOpts{Services: true, Defaults: true, Consts: true, Recursive: true, Small: true, MaxFiles: 1})
+		c.Files[c.Entry] = p.RenderFile(p.Files[0]) + "\n" + c.Files[c.Entry]
+		c.Shape += "+embedded"
+	}
 	// surround with ordinary definitions so that the cycle sits in a realistic file
 	if rapid.Bool().Draw(t, "surround") {
 		c.Files[c.Entry] += "\nstruct Plain { 1: required string name \n 2: optional list<i64> xs = [1, 2] }\nservice PlainSvc { Plain get(1: string k) }\n"
@@ -515,7 +521,7 @@ func TestStructuralGrid(t *testing.T) {
 	for seed := 0; seed < 4000 && len(seen) < 18*4; seed++ {
 		c := rapid.Custom(func(t *rapid.T) Case { return structural(t) }).Example(seed)
 		key := c.Shape + fmt.Sprint(len(c.Files[c.Entry]) > 0)
-		if seen[c.Shape] {
+		if strings.HasSuffix(c.Shape, "+embedded") || seen[c.Shape] {
 			continue
 		}
 		_ = key
